@@ -7,6 +7,7 @@ the seeded changes that already exist for that property (so that a new agent
 does something else); nothing from /verif's checks goes into it."""
 import json, os, subprocess, sys, glob
 r = sys.argv[1]
+theme = sys.argv[2] if len(sys.argv) > 2 else ''
 tmpl = open('/tmp/seed-prompt.txt').read() if os.path.exists('/tmp/seed-prompt.txt') else open(os.path.join(os.path.dirname(__file__), 'seed-prompt.tmpl')).read()
 props = [json.loads(l) for l in open('/verif/properties.jsonl')]
 for p in props:
@@ -22,6 +23,8 @@ for p in props:
     s = tmpl.replace('__WT__', wt).replace('__OUT__', out).replace('__PROP__', text)
     s += "\nDiversity requirement: the following seeded changes for this property already exist - do something in a DIFFERENT function or mechanism, and not a variation of any of them:\n" + "\n".join(prior)
     s += "\nThink about what ELSE in the code base makes this property hold (other functions, other query types, the builder's rewrites and flags, the parser and lexer, conversions, iterator/cursor discipline, cloning, the public API wrappers in xpath.go) and break one of those in a way that needs an unusual input shape, value, size, name, node kind, nesting, or call sequence. Prefer a defect whose failing inputs are rare among 'typical' randomly generated inputs (a boundary, a particular size >= 10, a specific combination of three features, an unusual character), yet deterministic.\n"
+    if theme:
+        s += "\nTheme for this round (follow it if the property can be broken that way, otherwise ignore it): " + theme + "\n"
     open('/tmp/seed-prompt-%s-%s.txt' % (pid, r), 'w').write(s)
     if not os.path.isdir(wt): subprocess.run(['git', '-C', '/repo', 'worktree', 'add', '--detach', wt, 'HEAD'], check=True, stdout=subprocess.DEVNULL, stderr=subprocess.DEVNULL)
     os.makedirs(out, exist_ok=True)
